@@ -103,7 +103,7 @@ WL_PROFILE = {}
 def run_C01(ctx):
     res = Result()
     rng = ctx.rng
-    progs = corpus_progs(ctx) + [G.gen_worklist_program(rng, {"p_fail": 0.1, "kinds": ["transfer"] * 5 + ["aspirate", "dispense", "distribute", "distribute", "misc"]})
+    progs = corpus_progs(ctx) + [G.gen_worklist_program(rng, {"p_fail": 0.1, "kinds": ["transfer"] * 5 + ["aspirate", "dispense", "distribute", "distribute", "misc", "drain_refill", "drain_refill"]})
                                  for _ in range(ctx.n(220))]
     stateful(ctx, res, "worklist", progs, ["replay_state"])
     return res
@@ -168,7 +168,7 @@ def run_C03(ctx):
     rng = ctx.rng
     progs = corpus_progs(ctx) + [G.gen_worklist_program(rng, {"p_fail": 0.75, "nops": (0, 5)}) for _ in range(ctx.n(260))]
     stateful(ctx, res, "worklist-failing", progs, ["replay_safe"])
-    progs = [gen_evo_program(rng, p_fail=0.5) for _ in range(ctx.n(120))]
+    progs = [gen_evo_program(rng, p_fail=0.6, fail_kinds=["toolarge", "toolarge", "limit", "order", "grid", "lc"]) for _ in range(ctx.n(150))]
     stateful(ctx, res, "evo-failing", progs, ["evo_step"])
     return res
 
@@ -184,7 +184,7 @@ def run_C04(ctx):
 def run_C05(ctx):
     res = Result()
     rng = ctx.rng
-    prof = {"p_fail": 0.05, "nops": (2, 10), "kinds": ["transfer"] * 6 + ["distribute", "distribute", "dispense", "aspirate"], "p_trough": 0.4}
+    prof = {"p_fail": 0.05, "nops": (2, 10), "kinds": ["transfer"] * 6 + ["distribute", "distribute", "dispense", "aspirate", "drain_refill", "drain_refill"], "p_trough": 0.4}
     progs = corpus_progs(ctx) + [G.gen_worklist_program(rng, prof) for _ in range(ctx.n(220))]
     stateful(ctx, res, "composition", progs, ["mixing"])
     return res
@@ -306,21 +306,21 @@ def base_refuses(prog, rb):
 
 
 # ------------------------------------------------------------------ EVO programs (C13, C10, C02)
-def gen_evo_program(rng, p_fail=0.3):
-    b = G.Builder(rng, {"devices": ["evo"], "nlabs": [1, 2]})
+def gen_evo_program(rng, p_fail=0.3, fail_kinds=None):
+    b = G.Builder(rng, {"devices": ["evo"], "nlabs": [1, 2], "max_volumes": [F(950), F(200), F(100), F(50), F(25, 2), F(300)]})
     b.cfg["dev"] = "evo"
     b.wl = impl.make_wl(b.cfg)
     nops = rng.randint(1, 5)
     for _ in range(nops):
         fail = rng.random() < p_fail
-        op = evo_op(b, rng, fail)
+        op = evo_op(b, rng, fail, fail_kinds)
         if not b.push(op):
             break
     return b.program()
 
 
-def evo_op(b, rng, fail):
-    if rng.random() < 0.2:
+def evo_op(b, rng, fail, fail_kinds=None):
+    if rng.random() < 0.2 and not fail_kinds:
         return evo_wash_op(rng, fail)
     li = rng.randrange(len(b.labs))
     L = b.labs[li]
@@ -356,7 +356,7 @@ def evo_op(b, rng, fail):
     if kind == "evo_dispense" and rng.random() < 0.4:
         op["comps"] = [{"water": F(1)} for _ in wells]
     if fail:
-        f = rng.choice(["order", "repeat", "tips_repeat", "tip_any", "columns", "grid", "site", "arm", "volume", "len", "tipnum", "lc", "toolarge", "limit"])
+        f = rng.choice(fail_kinds or ["order", "repeat", "tips_repeat", "tip_any", "columns", "grid", "site", "arm", "volume", "len", "tipnum", "lc", "toolarge", "limit"])
         if f == "order" and k > 1:
             op["wells"] = ("V", list(reversed(wells)))
         elif f == "repeat" and k > 1:
@@ -385,7 +385,14 @@ def evo_op(b, rng, fail):
         elif f == "lc":
             op["liquid_class"] = "a;b"
         elif f == "toolarge":
-            op["vol"] = [M + F(1)] + [F(0)] * (k - 1)
+            # a per-tip volume above the worklist's max_volume that the labware itself could take
+            idx = L.indices[wells[0]]
+            cur = F(float(L.volumes[idx]))
+            room = (cur - F(L.min_volume)) if kind == "evo_aspirate" else (F(L.max_volume) - cur)
+            big = M + rng.choice([F(1, 8), F(1), F(50)])
+            if room > big and rng.random() < 0.7:
+                big = G.grid(rng, big, room) if rng.random() < 0.5 else big
+            op["vol"] = [big] + [F(0)] * (k - 1)
         elif f == "limit":
             idx = L.indices[wells[0]]
             cur = F(float(L.volumes[idx]))
@@ -589,7 +596,9 @@ register("C04", run_C04, module="Robotools.Props.C04",
          theorems=["Robotools.C04." + t for t in ("micro_shape", "executed_prefix", "executed_all_of_ok", "exec_ledger", "exec_frame",
                    "compileRemove_shape", "compileAdd_shape", "compileAdd_rejects_shape", "compileRemove_rejects_shape", "scalar_broadcast",
                    "flattenF_mat_get", "flattenF_mat_length", "flattenF_pairs", "trough_alias", "plate_index", "repeat_charged")], rule="direct add/remove histories over plates and troughs with scalar/list/2-D arguments and repeats")
-register("C05", run_C05, rule="transfer/distribute/dispense histories with shared component names; exact amounts ledger")
+register("C05", run_C05, module="Robotools.Props.C05",
+         theorems=["Robotools.C05." + t for t in ("combine_zero", "combine_spec", "wellComp_spec", "addStep_amount", "addStep_compValid",
+                   "removeStep_frac", "removeStep_amount", "addStep_fracSum", "frac_range", "pair_conserves", "pair_same_well")], rule="transfer/distribute/dispense histories with shared component names; exact amounts ledger")
 register("C06", run_C06, module="Robotools.Props.C06",
          theorems=["Robotools.C06.partition_spec", "Robotools.C06.partition_zero", "Robotools.C06.multi_disp_fits",
                    "Robotools.C06.multi_disp_unchanged"], rule="(volume, max_volume) grid incl. k*M, k*M±step, non-integer M; plus transfers with split volumes")
